@@ -83,6 +83,20 @@ Proof. exact idle_is_quiescent. Qed.
 Print Assumptions c01_idle_is_quiescent.
 
 
+(** ... and once the source has ended, its items are in the pool and all handed to a matcher, with
+    no heartbeat still holding a stale "reader not done" (in particular: whenever the loop is idle in
+    such a state), no step other than a keystroke restarts the matcher or changes the pool: the
+    pipeline only winds down (one outstanding harvest at most). *)
+Theorem c01_winds_down_partial : forall nres ncie mp ls s s',
+  calm s -> Forall internal ls -> run nres ncie mp s ls = Some s' ->
+  calm s' /\ pl s' = pl s /\ resv s' = resv s.
+Proof. exact calm_run. Qed.
+Print Assumptions c01_winds_down_partial.
+
+Theorem c01_idle_done_is_calm : forall s, pc s = [] -> rdone s = true -> consumed s = true -> calm s.
+Proof. exact idle_done_calm. Qed.
+Print Assumptions c01_idle_done_is_calm.
+
 (** the code still has the skeleton the transition system stands for: in the event loop, matcher, reader and pool, the
     shared-state operations extracted from the Rust sources on this run (Gen/PipelineOrder.v) are
     the ones, in the order, that the model's steps were written for (Model/PipelineOrder.v) *)
